@@ -141,7 +141,9 @@ impl RefServer {
         let offered = algs_list(&self.ses_algs).is_some();
         // a server that offers algorithms or asks for anonymity must say so in the nonce cookie
         if self.ses_cookie || offered || self.ses_anon {
-            nonce_cookie(offered, self.ses_anon, &rest)
+            // every other nonce also sets some of the 22 feature bits that are not assigned yet
+            let reserved = if self.nonce_ctr % 2 == 0 { (self.nonce_ctr as u32).wrapping_mul(0x9E37_79B1) >> 10 } else { 0 };
+            nonce_cookie_reserved(offered, self.ses_anon, reserved, &rest)
         } else {
             format!("plain-{}", rest)
         }
@@ -336,6 +338,18 @@ impl RefServer {
                         b = self.body(req, code, &mut what);
                         key = self.lt_key_for(req, true);
                         kinds = vec![self.lt_kind()];
+                    }
+                }
+            }
+        }
+        if let Some(pb) = kv_get(spec, "pad").and_then(|x| x.parse::<u8>().ok()) {
+            // a server that fills padding with something else than zero: legal, and covered by its MAC / CRC.
+            // attributes pushed so far were padded with zero: rewrite their padding
+            b.pad = pb;
+            if let Ok(p0) = parse(&b.buf) {
+                for a in &p0.attrs {
+                    for i in (a.off + 4 + a.value.len())..a.end().min(b.buf.len()) {
+                        b.buf[i] = pb;
                     }
                 }
             }
